@@ -27,7 +27,7 @@ CHECKS = {
             "two_pops..five_pops with every frozen pattern (nomut in 2-D), random selection/migration, constant and time-dependent "
             "drivers: every kernel sweep and injection of every run is checked online; total mass budget; frozen marginals at interior "
             "frequencies; isolated subsets against the lower-dimensional integrator (same dt) or a replay of the recorded dt sequence; "
-            "no mutations into frozen/nomut populations; frozen+migration rejected for every (population, rate) pair. ASan overlay in thorough.",
+            "no mutations into frozen/nomut populations; frozen+migration rejected for every (population, rate) pair. ASan overlay in thorough; thorough also runs the repository's own test files under the same tap (ambient monitors, vf/ambient.py).",
             "trapezoid weights of the kernel's own grid; tap is a secondary monitor (reports 'not attached' if Integration.int_c is renamed)", "DESIGN.md §2 C04"),
     "C02": ("differential monitor: every kernel/driver step is re-solved by an independent dense flux-form reference (O-scheme); ASan+UBSan build of the kernels in the thorough tier",
             "Single steps of all 15 per-axis kernels through the Cython entry points (cubic arrays, a different grid per axis, zero and "
@@ -42,7 +42,7 @@ CHECKS = {
             "(multi)linear interpolant; total = trapezoid mass; project/marginalise consistency; linearity; direct and "
             "het_ascertained paths vs explicit trapezoid sums; admix_props identity and random row-stochastic matrices vs an explicit "
             "mixed-frequency sum; inbreeding mass, non-negativity and F->0 continuity; beta-binomial convolution sums to one; "
-            "direct-vs-analytic difference falls >=3x per grid doubling.",
+            "direct-vs-analytic difference falls >=3x per grid doubling; independent beta-binomial-convolution reference for inbreeding with per-population F/ploidy; thorough: total == trapezoid mass asserted on every from_phi call made by the repository's own tests (ambient monitor).",
             "Gauss-Legendre order sufficient for exactness; tolerance widened only by the stated conditioning terms "
             "(eps*L*max|dphi/dx| for the incomplete-beta form, eps*a*ln(a) at a=1/F for log-gamma differences)", "DESIGN.md §2 C05"),
     "C06": ("differential/invariant monitor at every PhiManip constructor and pulse function against a generic reference (hat-weight deposit + mass normalisation), marginal identities and exception classes",
@@ -61,21 +61,21 @@ CHECKS = {
     "C08": ("differential monitor at Spectrum.project / Numerics._cached_projection against exact rational hypergeometric weights; exhaustive for 1<=m<=n<=40",
             "Every 1-D pair 1<=m<=n<=40 with every hits value is run through the real functions (exhaustive), plus sampled n<=200, "
             "2-4-D spectra with random/single-entry masks, folded inputs, two-stage and axis-order compositions and cache "
-            "transparency (cold, warm, polluted). Exhaustive only for the 1-D n<=40 sweep; exploration elsewhere.",
+            "transparency (cold, warm, polluted); sparse data and masks up to n=200. Exhaustive only for the 1-D n<=40 sweep; exploration elsewhere. Ambient: every project / _cached_projection call made by the repository's own tests is compared with the exact reference.",
             "fractions.Fraction weights rounded once; mask semantics as stated in the property", "DESIGN.md §2 C08"),
     "C09": ("invariant/differential monitors at Spectrum.fold/unfold, Numerics.apply_anc_state_misid and every Spectrum operator against explicit per-entry index arithmetic",
             "Random 1-5-D spectra (even/odd totals, singleton axes, masks, labels): fold/unfold/misid against ndindex loops, "
             "mirror invariance, idempotence, refusal of folded/unfolded mixing for all 12 binary + 6 in-place operators with four "
-            "operand kinds, attribute survival under slicing/unary/log/likelihood evaluation.",
+            "operand kinds, attribute survival under slicing/unary/log/likelihood evaluation. Ambient: every fold() call made by the repository's own tests.",
             "the always-masked [0,...,0] corner of a folded spectrum (constructor default) is not judged", "DESIGN.md §2 C09"),
     "C10": ("differential monitor at Spectrum.marginalize/filter_pops/reorder_pops/combine_pops/combine_two_pops/scramble_pop_ids and Misc.combine_pops against ndindex re-indexing and exact pooled-redealt weights",
             "Random 2-6-D spectra with unequal sizes; all subsets/permutations/merge sets up to 4-D and sampled above; data, mask, "
-            "folded flag, labels, totals and commutation with project/fold are compared with explicit index arithmetic.",
+            "folded flag, labels, totals and commutation with project/fold are compared with explicit index arithmetic (axes also named in non-ascending order). Ambient: every marginalize() call made by the repository's own tests.",
             "absent/fixed corners excluded from data comparison; inputs have no interior masks (documented as ill-defined)", "DESIGN.md §2 C10"),
     "C11": ("differential monitor at Inference.ll/ll_per_bin/ll_multinom/optimal_sfs_scaling/residuals against an explicit Poisson sum over the intersected index set and a golden-section maximiser",
             "Random 1-3-D model/data pairs (projected non-integer data, zeros, independent masks, folded data, corners masked or not); "
             "likelihood values, per-bin masks, optimal scaling, maximality over scalings, scale invariance, Gibbs maximality of "
-            "model=c*data, residual sign and masks.",
+            "model=c*data, residual sign and masks; the same data re-evaluated with one more entry masked. Thorough: every ll/ll_multinom call made by the repository's own optimisation tests (ambient monitor).",
             "scipy.special.gammaln; inputs with <3 jointly unmasked entries are skipped (likelihood undefined)", "DESIGN.md §2 C11"),
     "C12": ("offline checker over the recorded evaluation history of the model function (boundary recorder) plus independent re-evaluation of the returned point",
             "Every exposed optimiser (opt with BOBYQA/COBYLA in natural and log parameters, optimize, optimize_log, optimize_lbfgsb, "
